@@ -10,7 +10,8 @@ def saver(resource, db, batch_size):
         batch_size=batch_size
     )
     for _, row in gen:
-        yield row
+        # the db serialises `row` only after we get control back: hand a copy downstream
+        yield copy.deepcopy(row)
 
 
 def loader(db):
